@@ -1,5 +1,6 @@
 import Mutagen.Proofs.Entry
 import Mutagen.Proofs.Apply
+import Mutagen.Proofs.PathString
 /-!
 # C07 — tree diff, apply, copy and filtering are mutually consistent
 
@@ -66,6 +67,14 @@ theorem count_eq (e : Option Entry) (hv : Valid e) : ocount e = osz (osync e) :=
   cases e with
   | none => rfl
   | some e => exact Entry.count_eq e hv.2
+
+/-- Path-string glue: for names that pass the `EnsureValid` name checks
+(non-empty, no `/`), the components `Apply` derives from a path string
+(`""` = root, otherwise `strings.Split(path, "/")`) are exactly the names from
+which `diff` / `reconcile` built that string with `Joinable(path) + name`. -/
+theorem split_join (p : List PathString.Str) (h : ∀ n ∈ p, PathString.nameOk n) :
+    PathString.components (PathString.join p) = p :=
+  PathString.components_join p h
 
 /-! Non-vacuity: concrete valid trees with unsynchronizable content. -/
 
